@@ -81,12 +81,17 @@ def run(tier):
     cases, meta = [], {}
     nprob = 16 if tier == "quick" else 160
     nbig = 2 if tier == "quick" else 8
-    for k in range(nprob + nbig):
+    for k in range(nprob + nbig + 1):
         measure = ["sad", "census", "ssd", "zncc"][k % 4]
         win = 3 if measure in ("census", "zncc") else [1, 3][k % 2]
         s = [1, 2, 4][k % 3]
         R_, C_ = int(rng.randint(12, 21)), int(rng.randint(30, 61))
-        big = k >= nprob
+        big = nprob <= k < nprob + nbig
+        half = k == nprob + nbig
+        if half:
+            # a scene whose true disparity is half a pixel (the left image is the mean of two neighbouring right columns), matched at
+            # subpix 2 and cross-checked: disparities are exactly x.5, so any rounding of an ABSOLUTE column position shows at odd starts
+            measure, win, s = "sad", 1, 2
         if big:
             # images larger than the internal processing blocks (50 rows / columns for the bilateral filter, 100 for the disparity
             # and median steps): a pixel's result must not depend on which block it falls in
@@ -106,12 +111,21 @@ def run(tier):
             Rt = np.roll(L, int(rng.randint(a, b + 1)), axis=1)
             b = max(b, a + 3)
             vmax = 65536
-        if k % 3 == 0:
+        if half:
+            a, b = -1, 1
+            Rt = (2 * rng.randint(0, 100, size=(R_, C_))).astype(np.float32)
+            L = ((Rt + np.roll(Rt, -1, axis=1)) / 2).astype(np.float32)      # the left image samples the right one half a pixel further
+            vmax = 256
+        if k % 3 == 0 and not half:
             mL = (rng.rand(R_, C_) < 0.03) * rng.choice([1, 2], size=(R_, C_))
             mR = (rng.rand(R_, C_) < 0.03) * rng.choice([1, 2], size=(R_, C_))
         else:
             mL = mR = None
         steps = gen_pipe(rng, measure, win, s)
+        if half:
+            steps = [("matching_cost", {"matching_cost_method": "sad", "window_size": 1, "subpix": 2}),
+                     ("disparity", {"disparity_method": "wta", "invalid_disparity": -9999}),
+                     ("validation", {"validation_method": "cross_checking_accurate", "cross_checking_threshold": 0.0})]
         if big:
             steps = [("matching_cost", {"matching_cost_method": "sad", "window_size": 1, "subpix": 1}),
                      ("disparity", {"disparity_method": "wta", "invalid_disparity": -9999}),
@@ -133,6 +147,8 @@ def run(tier):
             [(i, j) for i in (0, 1, 2, 3) for j in (0, 1, 2, 3, 7, 8)]
         if big:
             offs = [(7, 13), (51, 0), (0, 49)]
+        if half:
+            offs = [(0, 1), (1, 1), (0, 3), (2, 0), (1, 5)]
         for (r0, c0) in offs:
             r1 = R_ if (r0 + c0) % 2 == 0 else R_ - int(rng.randint(0, 3))
             c1 = C_ if (r0 + c0) % 3 == 0 else C_ - int(rng.randint(0, 6))
